@@ -26,6 +26,7 @@ def run(rep):
     rep.guard(e9, rep, w)
     rep.guard(e10, rep, w)
     rep.guard(e11, rep, w)
+    rep.guard(e12, rep, w)
     import c11
     rep.guard(c11.i1, rep, w)    # `==` on strings is pointer identity: every string an operator produces has to come out of the intern table
     import c03
@@ -79,6 +80,22 @@ def e1(rep, w):
     assign_kinds = sorted(k for k in aops if k.endswith('Equal') and k not in ('EqualEqual', 'BangEqual', 'LessEqual', 'GreaterEqual'))
     if len(assign_kinds) < 10:
         raise Broken('C05', 'floor', 'binary_assign: only %d compound-assignment arms recognised' % len(assign_kinds))
+    # an operator whose infix handler is not `binary` (a right-associative one has a parse function of its own): the opcodes are those its
+    # handler - the one the parse table names for the token - emits
+    c = w.yarel
+    cands = [k for k in c.const_tables if k.rsplit('::', 1)[-1] == 'RULES']
+    tkv = [v['n'] for v in c.adts[TK]['variants']]
+    if len(cands) == 1 and 'array' in c.const_tables[cands[0]]:
+        for i, e in enumerate(c.const_tables[cands[0]]['array']):
+            kind = tkv[i] if i < len(tkv) else None
+            infix = e.get('fields', {}).get('infix', {})
+            handler = infix.get('args', [{}])[0].get('path', '') if 'call' in infix else ''
+            if kind and kind not in bops and handler and handler != bf.path and (kind + 'Equal') in aops:
+                hf = w.fn(handler)
+                if hf is not None:
+                    ops_ = tuple(o for (bi, k_, o, d) in emit.emissions(w, hf) if o)
+                    if ops_:
+                        bops[kind] = ops_
     for ak in assign_kinds:
         bk = ak[:-len('Equal')]
         r.check(bk in bops and bops[bk] == aops[ak] and len(aops[ak]) >= 1, '%s emits %s = %s emits %s' % (ak, aops[ak], bk, bops.get(bk)),
@@ -561,3 +578,38 @@ def e11(rep, w):
         r.check(not bad, '%s / arithmetic on f64 only' % name,
                 'the operator function %s computes with %s: an arithmetic operator takes an integer route for some operands, which differs from the IEEE operation '
                 '(sign of a zero result, values beyond 2^63, a panic at the most negative integer)' % (name, ', '.join(sorted(set(bad)))), f.loc())
+
+
+def e12(rep, w):
+    """values and code that are shared by handle and documented immutable (ranges, tuples, strings, functions and their chunks) carry no
+    interior-mutable state: a Cell / RefCell inside one of them is state that a *reader* changes - a remembered hash that a copy inherits,
+    a search cursor that makes the answer for one offset depend on the offsets asked before. (Fields reached through another handle -
+    Gc / Root / a raw pointer - belong to other objects and are not looked at.)"""
+    from facts import ty_walk_no_handles
+    c = w.yarel
+    r = rep.rule('E12', 'shared immutable objects (ObjRange, ObjTuple, ObjString, ObjFunction, Chunk) contain no interior-mutable field', floor=5)
+    CELLS = ('std::cell::Cell', 'std::cell::RefCell', 'std::cell::UnsafeCell', 'std::cell::OnceCell', 'std::sync::Mutex', 'std::sync::RwLock', 'std::sync::OnceLock',
+             'std::cell::LazyCell', 'std::sync::atomic::')
+    for adt in ('yarel::object::ObjRange', 'yarel::object::ObjTuple', 'yarel::object::ObjString', 'yarel::object::ObjFunction', 'yarel::chunk::Chunk'):
+        a = c.adts.get(adt)
+        if a is None:
+            raise Broken('C05', 'anchor', 'type %s not found' % adt)
+        bad = []
+        todo = [(adt, fd['n'], fd['t']) for v in a['variants'] for fd in v['fields']]
+        seen_adts = {adt}
+        while todo:
+            owner, path, tid = todo.pop()
+            for _, t in ty_walk_no_handles(c, tid):
+                if t['k'] == 'ptr':
+                    continue
+                if t['k'] == 'adt':
+                    if t['n'].startswith(CELLS):
+                        bad.append('%s: %s' % (path, t['n'].rsplit('::', 1)[-1]))
+                    elif t['n'].startswith('yarel::') and t['n'] in c.adts and t['n'] not in seen_adts and t['n'] not in ('yarel::value::Value', 'yarel::memory::Gc', 'yarel::memory::Root', 'yarel::memory::UniqueRoot'):
+                        seen_adts.add(t['n'])
+                        todo += [(t['n'], path + '.' + fd['n'], fd['t']) for v in c.adts[t['n']]['variants'] for fd in v['fields']]
+        # one named exception: the re-entrancy guard of a tuple's Display / Hash, set and cleared in pairs around the walk (C02 P8, C12 H5 decide the pairing)
+        bad = [b_ for b_ in bad if not (adt.endswith('::ObjTuple') and b_ == 'self_lock: Cell')]
+        r.check(not bad, '%s has no interior-mutable field' % adt.rsplit('::', 1)[-1],
+                '%s is shared by handle and read-only by contract, but holds interior-mutable state (%s): a reader changes it, so what one holder is told depends on what '
+                'other holders (or earlier queries) did' % (adt.rsplit('::', 1)[-1], ', '.join(sorted(set(bad)))))
